@@ -10,10 +10,11 @@ import (
 
 	"verif/sa/internal/oblig"
 	"verif/sa/internal/props"
+	"verif/sa/internal/selftest"
 )
 
 func usage() {
-	fmt.Fprintln(os.Stderr, "usage: verif check <property-id> [--tier quick|thorough] | verif list")
+	fmt.Fprintln(os.Stderr, "usage: verif check <property-id> [--tier quick|thorough] | verif list | verif selftest [property-id...]")
 	os.Exit(2)
 }
 
@@ -30,6 +31,29 @@ func main() {
 		sort.Strings(ids)
 		for _, id := range ids {
 			fmt.Println(id)
+		}
+	case "selftest":
+		// regression gate for the checker itself: every catalogue variant must get the verdict it was filed with
+		vd := os.Getenv("VERIF_DIR")
+		if vd == "" {
+			vd = "/verif"
+		}
+		outs, err := selftest.Run(os.Args[2:], vd, 8)
+		if err != nil {
+			fmt.Fprintln(os.Stderr, err)
+			os.Exit(2)
+		}
+		for _, o := range outs {
+			mark := "ok  "
+			if !o.OK {
+				mark = "DIFF"
+			}
+			fmt.Printf("%s %-14s %-14s %-42s %s\n", mark, o.Expect, o.Observed, o.ID, o.Report)
+		}
+		sum, bad := selftest.Summary(outs)
+		fmt.Printf("selftest variants=%d unexpected=%d %s\n", len(outs), bad, sum)
+		if bad > 0 {
+			os.Exit(1)
 		}
 	case "check":
 		if len(os.Args) < 3 {
@@ -70,5 +94,16 @@ func run(id, tier string, c props.Check) (code int) {
 		}
 	}()
 	c.Run(r)
+	if tier == "thorough" && os.Getenv("VERIF_NO_SELFTEST") == "" {
+		// sensitivity of the checker: the frozen source variants of this property are re-analysed and the
+		// verdicts recorded in the evidence; they describe the checker, not /repo, and do not change the exit code
+		if outs, err := selftest.Run([]string{id}, r.VerifDir(), 8); err == nil {
+			sum, bad := selftest.Summary(outs)
+			r.Extra["variant_selftest"] = map[string]any{"summary": sum, "unexpected": bad, "variants": outs}
+			fmt.Printf("  selftest property=%s variants=%d unexpected=%d %s\n", id, len(outs), bad, sum)
+		} else {
+			r.Extra["variant_selftest"] = map[string]any{"error": err.Error()}
+		}
+	}
 	return r.Finish()
 }
